@@ -51,6 +51,11 @@ def c14_gen(rng, tier):
         add("udp", ["ok"], ["ok"], False)
         add("udp", ["idown"], ["refuse"], False)
         add("udp", [rng.choice(["silent", "garbage", "half"])], ["ok"], True)
+        # --- the pipelined retry constant on the real loop (injected dialer, Writes that fail)
+        for w in (1, 4, 5, 6, rng.randrange(7, 40)):
+            add("pfake", ["werr"] * w + ["ok"], ["ok"], False)
+        add("pfake", ["werr"] * rng.randrange(1, 6) + ["ok"], ["refuse"], False)
+        add("pfake", [], ["refuse"], False)
         add("doh", ["ifin"], ["ok"], False)
         add("doh", ["ok"], ["ok"], False)
         # --- the stale-pool scenario on the one-at-a-time transports: k idle connections, the server kills them all
